@@ -290,7 +290,18 @@ impl Family for C04Handlers {
       }
       scripts.push(s);
     }
-    let sources = vec![SrcSpec { mode: Mode::Hot, scripts }];
+    // a real Subject as the hot source: one script that goes on after an error (a Subject has no
+    // terminal memory), so a handler that resubscribes inside the error notification must see the rest
+    let sources = if rng.below(3) == 0 {
+      let mut s: Vec<Step> = Vec::new();
+      for (k, sc) in scripts.iter().enumerate() {
+        let _ = k;
+        s.extend(sc.iter().cloned());
+      }
+      vec![SrcSpec { mode: Mode::Subject, scripts: vec![s] }]
+    } else {
+      vec![SrcSpec { mode: Mode::Hot, scripts }]
+    };
     let total: usize = sources[0].scripts.iter().map(|s| s.len()).sum();
     let order: Vec<i64> = (0..total + 1).map(|_| 0).collect();
     spec_to_json(p, &sources, &order, vec![])
@@ -300,12 +311,16 @@ impl Family for C04Handlers {
       Some(s) => s,
       None => return RunOut::invalid(),
     };
-    if spec.sources.len() != 1 || spec.sources[0].mode != Mode::Hot || !spec.order.iter().all(|o| *o == 0) {
+    let is_subject = spec.sources.len() == 1 && spec.sources[0].mode == Mode::Subject;
+    if spec.sources.len() != 1 || !(spec.sources[0].mode == Mode::Hot || is_subject) || !spec.order.iter().all(|o| *o == 0) {
+      return RunOut::invalid();
+    }
+    if is_subject && spec.sources[0].scripts.len() != 1 {
       return RunOut::invalid();
     }
     for sc in &spec.sources[0].scripts {
       let nterm = sc.iter().filter(|x| !matches!(x, Step::N(_))).count();
-      if nterm > 1 || (nterm == 1 && matches!(sc.last(), Some(Step::N(_)))) {
+      if !is_subject && (nterm > 1 || (nterm == 1 && matches!(sc.last(), Some(Step::N(_))))) {
         return RunOut::invalid();
       }
     }
@@ -365,7 +380,7 @@ impl Family for C04Handlers {
         if !live {
           continue;
         }
-        let sc = &scripts[(subs - 1).min(scripts.len() - 1)];
+        let sc = if is_subject { &scripts[0] } else { &scripts[(subs - 1).min(scripts.len() - 1)] };
         if pos >= sc.len() {
           continue;
         }
@@ -409,7 +424,9 @@ impl Family for C04Handlers {
             if again {
               attempt += 1;
               subs += 1;
-              pos = 0;
+              if !is_subject {
+                pos = 0;
+              }
             } else {
               exp.push(Ev::Error(*id));
               live = false;
@@ -456,7 +473,7 @@ impl Family for C04Handlers {
         v.push(Violation::new(class, &op, format!("pipeline {} over subscriptions {:?}: the definition gives [{}], the subscriber received [{}]", pshow, scripts.iter().map(|s| s.iter().map(|x| x.show()).collect::<Vec<_>>().join(",")).collect::<Vec<_>>(), show(&exp), show(&got))));
       }
       let got_subs = r.src_logs[0].lock().unwrap().subscriptions.len();
-      if got_subs != subs {
+      if !is_subject && got_subs != subs {
         v.push(Violation::new("resubscription-count", &op, format!("pipeline {} over subscriptions {:?}: the source was subscribed {} time(s), the definition gives {}", pshow, scripts.iter().map(|s| s.iter().map(|x| x.show()).collect::<Vec<_>>().join(",")).collect::<Vec<_>>(), got_subs, subs)));
       }
       // a failed attempt's observer is unsubscribed before the next attempt is subscribed
